@@ -373,9 +373,49 @@ class Analysis:
             fam._static[key] = (self._pairs, self._tracked(), self._may_alias(), self._handles())
         self._pairs, self.tracked, self.alias, self.handles = fam._static[key]
         self.exempt_self = ''
+        # decorators: memoisation/typing decorators do not touch the list; a guard decorator of the module that flushes `self`
+        # and then calls the method makes `self` clean at entry; anything else is not understood -> state of self unknown
+        if self.is_method and fn.decorator_list:
+            g = self._decorator_entry()
+            if g is not None:
+                self.self_entry = g
         self.role = fam.roles.get(fn.name, '') if self.is_method else ''
         if self.role in ('init', 'flush'):
             self.exempt_self = self.role
+
+    HARMLESS_DECORATORS = {'T.overload', 'typing.overload', 'overload', 'lru_cache', 'functools.lru_cache', 'functools.cache', 'cache',
+                           'abc.abstractmethod', 'abstractmethod', 'property', 'functools.cached_property', 'T.final', 'typing.final', 'final'}
+
+    def _decorator_entry(self) -> T.Optional[Status]:
+        entry: T.Optional[Status] = None
+        for d in self.fn.decorator_list:
+            name = attr_chain(d.func if isinstance(d, ast.Call) else d) or '?'
+            if name in self.HARMLESS_DECORATORS:
+                continue
+            unknown: Status = (UNKNOWN, f'the decorator @{name} may run code before the method body')
+            if isinstance(d, ast.Call) or not self.mod.has_func(name):
+                return unknown
+            deco = self.mod.func(name)
+            body = [x for x in deco.body if not (isinstance(x, ast.Expr) and isinstance(x.value, ast.Constant))]
+            params = [a.arg for a in deco.args.args]
+            if len(params) != 1 or len(body) != 2 or not isinstance(body[0], ast.FunctionDef) or not isinstance(body[1], ast.Return) \
+                    or attr_chain(body[1].value) != body[0].name:
+                return unknown
+            w = body[0]
+            wbody = [x for x in w.body if not (isinstance(x, ast.Expr) and isinstance(x.value, ast.Constant))]
+            wparams = [a.arg for a in w.args.args]
+            last = wbody[-1] if wbody else None
+            if not wparams or not isinstance(last, ast.Return) or not isinstance(last.value, ast.Call) or attr_chain(last.value.func) != params[0] \
+                    or not last.value.args or attr_chain(last.value.args[0]) != wparams[0]:
+                return unknown
+            prefix = [x for x in wbody[:-1] if not isinstance(x, ast.Pass)]
+            if not prefix:
+                continue
+            if all(isinstance(x, ast.Expr) and isinstance(x.value, ast.Call) and attr_chain(x.value.func) == f'{wparams[0]}.{FLUSH}' and not x.value.args for x in prefix):
+                entry = (CLEAN, f'flushed by the guard decorator @{name}')
+            else:
+                return unknown
+        return entry
 
     # -- which receivers are lazy lists in this function -------------------------
     def _tracked(self) -> T.Set[str]:
